@@ -77,6 +77,7 @@ type tcpClient struct {
 	conn net.Conn
 	r    *bufio.Reader
 	got  int64 // bytes read by a healthy client's reader
+	gone int32 // the healthy client's reader has seen the end of its connection
 }
 
 // rtspExchange sends one request and reads the response (headers and Content-Length body).
@@ -250,6 +251,7 @@ func runTcpScenario(sc *stScenario, seed int64) (evs []M, err error) {
 					n, e := c.r.Read(buf)
 					atomic.AddInt64(&c.got, int64(n))
 					if e != nil {
+						atomic.StoreInt32(&c.gone, 1)
 						return
 					}
 				}
@@ -277,6 +279,7 @@ func runTcpScenario(sc *stScenario, seed int64) (evs []M, err error) {
 	// step: one call into lal, its duration, and whether the healthy consumer was handed data within the bound
 	step := func(name string, wantData bool, fn func() int64) {
 		before := atomic.LoadInt64(&healthy.got)
+		goneBefore := atomic.LoadInt32(&healthy.gone) == 1
 		t0 := time.Now()
 		callUs := fn()
 		latUs := int64(0)
@@ -291,7 +294,9 @@ func runTcpScenario(sc *stScenario, seed int64) (evs []M, err error) {
 				time.Sleep(200 * time.Microsecond)
 			}
 		}
-		emit(M{"ev": "Tcp", "step": name, "callUs": callUs, "latUs": latUs, "gotData": gotData,
+		// hgone: the healthy consumer's connection had ended before the step began (lal's sweep found it idle between two
+		// ticks, or its queue ran over - the driver's reader did not get the processor): what it receives is not judged
+		emit(M{"ev": "Tcp", "step": name, "callUs": callUs, "latUs": latUs, "gotData": gotData, "hgone": goneBefore,
 			"departed": int(atomic.LoadInt32(&obs.departed)), "stalled": nStalled, "saturated": saturated})
 	}
 	timed := func(fn func()) func() int64 {
